@@ -178,8 +178,10 @@ def sampling(cases, key_idx=(2, 0, 1)):
             if any((x < 0).any() for x in seq):
                 o["fails"].append(("sample_negative", f"a later sample() call returned a negative delay: {desc}", replay))
             if spec["kind"] != "det" and s.size >= 3 and nseq >= 2 and min(spec.get("scale") if isinstance(spec.get("scale"), list) else [spec.get("scale", 1.0)]) > 0:
-                if any(onp.array_equal(seq[i], seq[i + 1]) for i in range(nseq - 1)) and float(onp.max(seq[0])) > 0:
-                    o["fails"].append(("rng_not_advanced", f"two successive sample() calls returned identical arrays {seq[0].reshape(-1)[:3]}: {desc}", replay))
+                # two draws clipped to all zeros are equal without the rng standing still: only pairs with an unclipped value count
+                same = [i for i in range(nseq - 1) if onp.array_equal(seq[i], seq[i + 1]) and float(onp.max(seq[i])) > 0]
+                if same:
+                    o["fails"].append(("rng_not_advanced", f"two successive sample() calls (number {same[0]} and {same[0] + 1}) returned identical arrays {seq[same[0]].reshape(-1)[:3]}: {desc}", replay))
             if c.get("jit"):
                 dj, sj = jax.jit(lambda dd: dd.sample(shp))(d)
                 locs = spec["loc"] if isinstance(spec.get("loc"), list) else [spec.get("loc", 0.0)]
